@@ -1412,6 +1412,7 @@ class SimulationResults(JsonSerializable):
             'params': self._params.to_dict(),
             'runned_reps': self.runned_reps,
             'original_filename': self.original_filename,
+            'current_rep': self.current_rep,
             'results': results
         }
 
@@ -1460,6 +1461,8 @@ class SimulationResults(JsonSerializable):
         simresults._params = SimulationParameters.from_dict(d['params'])
         simresults.runned_reps = d['runned_reps']
         simresults.original_filename = d['original_filename']
+        # Files written before 'current_rep' was serialized do not have it
+        simresults.current_rep = d.get('current_rep', -1)
         simresults._results = results
 
         return simresults
